@@ -77,6 +77,16 @@ def fault_variants(prog: list[dict[str, Any]], rng: random.Random):  # noqa: ANN
             yield p, {"block": blk["name"], "kind": blk["kind"], "fault": "body-exception", "exit": ex}
         if blk["kind"] != "ascope":
             continue
+        # fault-free disposables, one of which claims to have handled the exception (its __aexit__ returns True): the body's
+        # exception must still reach the caller
+        for ex in ("raise-exc", "raise-base", "cancel-self", "raise-keyerror"):
+            p = copy.deepcopy(base)
+            b = blocks_of(p)[bi]
+            b["exit"] = {"kind": ex}
+            b["disposables"] = [{"yield": [], "enter": "ok", "exit": rng.choice(["true", "ok"])}, {"yield": [], "enter": rng.choice(["ok", "gate"]), "exit": "true"}][: rng.choice([1, 2])]
+            if not any(d["exit"] == "true" for d in b["disposables"]):
+                b["disposables"][0]["exit"] = "true"
+            yield p, {"block": blk["name"], "kind": blk["kind"], "fault": "body-exception", "exit": ex, "disposable_returns_true": True}
         # disposables: subsets failing in enter / exit
         for n in (1, 2, 3):
             for _ in range(2 if n > 1 else 4):
